@@ -73,6 +73,17 @@ def gen(ctx):
     for _ in range(200 if ctx.quick else 3000):
         sx, sy = rnd.choice([1, 2, 3, 5, 6, 7, 9, 12, 17, 33, 100, 1000]), rnd.choice([1, 2, 3, 4, 5, 7, 8, 31, 64, 65, 777])
         cases.append(("ident", "hilbert", [sx, sy], [rnd.randrange(sx), rnd.randrange(sy)]))
+    # storage position after a converting construction (observed in the raw array, not through at())
+    for N, lim in ((1, 12), (2, 30), (3, 30), (4, 24)):
+        bx = L.boxes(N, lim if ctx.quick else lim * 4)
+        rnd.shuffle(bx)
+        for sz in bx[: (14 if ctx.quick else 120)]:
+            for lay in L.LAYS:
+                if lay == "hilbert" and N != 2:
+                    continue
+                cs = list(L.coords(sz))
+                for co in ([cs[-1], cs[len(cs) // 2]] + [rnd.choice(cs) for _ in range(2)]):
+                    cases.append(("convpos", lay, list(sz), list(co)))
     # 32-bit coordinate scalars (unsigned, int) through the probe backend: high coordinate bits must survive the interleave
     for ct, cw in (("u32", 32), ("i32", 31)):
         for N in (1, 2, 3, 4):
@@ -104,7 +115,8 @@ def evaluate(ctx, cases, cfgs):
     mout = C.run_driver("driver", [L.model_line(lay, ct, sz, co) for (op, lay, sz, co, ct) in cases])
     for cfg in cfgs:
         outs, _ = C.run_lines(exes[("layout", cfg)], [L.impl_line(op, lay, ct, sz, co) for (op, lay, sz, co, ct) in cases])
-        outs = [(o.split()[1] if (c[0] == "idx" and len(o.split()) == 2 and o.split()[0] == "1") else o) for c, o in zip(cases, outs)]
+        outs = [(o.split()[1] if (c[0] == "idx" and len(o.split()) == 2 and o.split()[0] == "1") else
+                 o.split()[0] if (c[0] == "convpos" and len(o.split()) == 2 and o.split()[1] == "1") else o) for c, o in zip(cases, outs)]
         hil = {}
         pair = {}
         for (op, lay, sz, co, ct), o, m in zip(cases, outs, mout):
